@@ -184,6 +184,16 @@ def well_formed(rng, k, with_ref=None, n_units=None, derived=False):
     return d
 
 
+def special_literals(k):
+    """a fixed definition whose scale literals exercise the literal handling: 18 fractional digits (more
+    significant digits than a double holds), a long exact decimal, exponent forms, trailing zeros"""
+    lits = ["0.333333333333333333", "0.277777777777777778", "1.000000000000000001", "0.45359237", "2.5e-7", "1e6", "1000.000", "12"]
+    units = [Unit("Base_Unit", "bu", None, None, Fraction(1), None, kind="ref_unit")]
+    for i, t in enumerate(lits):
+        units.append(Unit(f"Lit_{i}", f"l{i}", None, t, Fraction(t), None))
+    return Def(f"Q{k}", units)
+
+
 def permuted(rng, d):
     units = list(d.units)
     rng.shuffle(units)
